@@ -1,3 +1,4 @@
+import WildModel.Props.C04
 import WildModel.Props.C07
 import WildModel.Props.C39
 import WildModel.Props.C40
@@ -29,6 +30,10 @@ on how files are partitioned into groups, or on the order in which a concurrent 
   whatever the partition into groups (`WILD_FILES_PER_GROUP`, `--wild-experiments` group sizes).
 * (e) re-exported: string merging (`Wild.StrMerge.split_invisible`, C07; `Wild.ProtoMerge.bucket_order`,
   C40) and the GC traversal (`Wild.ProtoLayout.terminal_is_closure`, C39) are schedule free.
+
+* (f) `Wild.InPlace.inplace_covers_all` — in the layout model of C04 the part file ranges and the padding
+  ranges in front of them tile `[0, fileSize)` exactly, so (given that every part writer stores all its
+  bytes and padding is zero-filled) no byte of a reused output file survives `--update-in-place`.
 
 Whole-file determinism beyond these merge points is NOT a theorem here; it is explored by
 `vlib/props/c06.py` (threads x grouping x experiments x schedule perturbation x prior output state).
@@ -331,3 +336,176 @@ example : sortUndefined [3, 9, 1] = sortUndefined [1, 3, 9] := undefined_canonic
 example : groupedStarts 100 [[4, 8], [], [16]] = [100, 104, 112] ∧ groupedStarts 100 [[4], [8, 16]] = [100, 104, 112] := by decide
 
 end Wild.Determinism
+
+/-! ## (f) `--update-in-place`: the layout leaves no byte of the file unassigned -/
+
+namespace Wild.InPlace
+open Wild.Layout
+
+/-- A byte range `[start, stop)` of the output file: a part's file range (`pad = false`) or the padding in
+front of it (`pad = true`). -/
+structure Tile where
+  start : Nat
+  stop : Nat
+  pad : Bool
+  deriving Repr, DecidableEq
+
+/-- Walk the part records in layout order with a file cursor `lo`: before each part the padding range from the
+cursor to the part's file offset, then the part's own file range. -/
+def tiles (lo : Nat) : List Rec → List Tile
+  | [] => []
+  | r :: rs => ⟨lo, r.fileOff, true⟩ :: ⟨r.fileOff, r.fileOff + r.fileSize, false⟩ :: tiles (r.fileOff + r.fileSize) rs
+
+/-- `compute_total_file_size`: the largest end of any file range (taken over the parts; a section's range is
+the hull of its parts, so the maximum is the same). -/
+def totalFileSize (rs : List Rec) : Nat := rs.foldl (fun a r => max a (r.fileOff + r.fileSize)) 0
+
+/-- `ts` tiles `[lo, hi)` without gap or overlap: each tile starts where the previous one stopped. -/
+def Chain (lo hi : Nat) : List Tile → Prop
+  | [] => lo = hi
+  | t :: ts => t.start = lo ∧ t.start ≤ t.stop ∧ Chain t.stop hi ts
+
+theorem Chain.le {lo hi : Nat} {ts : List Tile} (h : Chain lo hi ts) : lo ≤ hi := by
+  induction ts generalizing lo with
+  | nil => exact Nat.le_of_eq h
+  | cons t ts ih =>
+    obtain ⟨h1, h2, h3⟩ := h
+    have := ih h3; omega
+
+theorem Chain.bounds {lo hi : Nat} {ts : List Tile} (h : Chain lo hi ts) :
+    ∀ t ∈ ts, lo ≤ t.start ∧ t.start ≤ t.stop ∧ t.stop ≤ hi := by
+  induction ts generalizing lo with
+  | nil => intro t ht; cases ht
+  | cons t ts ih =>
+    obtain ⟨h1, h2, h3⟩ := h
+    intro t' ht'
+    rcases List.mem_cons.1 ht' with rfl | hm
+    · have := h3.le; omega
+    · have := ih h3 t' hm; omega
+
+/-- A chain covers exactly `[lo, hi)`. -/
+theorem Chain.cover {lo hi : Nat} {ts : List Tile} (h : Chain lo hi ts) (b : Nat) :
+    (lo ≤ b ∧ b < hi) ↔ ∃ t ∈ ts, t.start ≤ b ∧ b < t.stop := by
+  induction ts generalizing lo with
+  | nil =>
+    have : lo = hi := h
+    constructor
+    · intro hb; omega
+    · rintro ⟨t, ht, _⟩; cases ht
+  | cons t ts ih =>
+    obtain ⟨h1, h2, h3⟩ := h
+    have hle := h3.le
+    constructor
+    · intro hb
+      by_cases hlt : b < t.stop
+      · exact ⟨t, List.mem_cons_self, by omega, hlt⟩
+      · obtain ⟨t', ht', hin⟩ := (ih h3).1 ⟨by omega, hb.2⟩
+        exact ⟨t', List.mem_cons_of_mem _ ht', hin⟩
+    · rintro ⟨t', ht', hin⟩
+      rcases List.mem_cons.1 ht' with rfl | hm
+      · omega
+      · have := (ih h3).2 ⟨t', hm, hin⟩; omega
+
+/-- The tiles of a chain are pairwise disjoint (ascending). -/
+theorem Chain.pairwise {lo hi : Nat} {ts : List Tile} (h : Chain lo hi ts) :
+    ts.Pairwise (fun a b => a.stop ≤ b.start) := by
+  induction ts generalizing lo with
+  | nil => exact List.Pairwise.nil
+  | cons t ts ih =>
+    obtain ⟨h1, h2, h3⟩ := h
+    refine List.Pairwise.cons ?_ (ih h3)
+    intro t' ht'
+    exact (h3.bounds t' ht').1
+
+/-- End of the last file range (the cursor after the walk). -/
+def fileEnd (lo : Nat) : List Rec → Nat
+  | [] => lo
+  | r :: rs => fileEnd (r.fileOff + r.fileSize) rs
+
+theorem tiles_chain (lo : Nat) (rs : List Rec) (hlo : ∀ r ∈ rs, lo ≤ r.fileOff)
+    (hp : rs.Pairwise (fun a b => a.fileOff + a.fileSize ≤ b.fileOff)) :
+    Chain lo (fileEnd lo rs) (tiles lo rs) := by
+  induction rs generalizing lo with
+  | nil => exact rfl
+  | cons r rs ih =>
+    rw [List.pairwise_cons] at hp
+    refine ⟨rfl, hlo r List.mem_cons_self, rfl, Nat.le_add_right _ _, ?_⟩
+    exact ih _ (fun q hq => hp.1 q hq) hp.2
+
+theorem foldl_max_eq_fileEnd (lo : Nat) (rs : List Rec) (hlo : ∀ r ∈ rs, lo ≤ r.fileOff)
+    (hp : rs.Pairwise (fun a b => a.fileOff + a.fileSize ≤ b.fileOff)) :
+    rs.foldl (fun a r => max a (r.fileOff + r.fileSize)) lo = fileEnd lo rs := by
+  induction rs generalizing lo with
+  | nil => rfl
+  | cons r rs ih =>
+    rw [List.pairwise_cons] at hp
+    have h1 := hlo r List.mem_cons_self
+    simp only [List.foldl_cons, fileEnd]
+    rw [show max lo (r.fileOff + r.fileSize) = r.fileOff + r.fileSize by omega]
+    exact ih _ (fun q hq => hp.1 q hq) hp.2
+
+/-- The part tiles are exactly the file ranges of the records, in order. -/
+theorem tiles_parts (lo : Nat) (rs : List Rec) :
+    ((tiles lo rs).filter (fun t => !t.pad)).map (fun t => (t.start, t.stop)) =
+      rs.map (fun r => (r.fileOff, r.fileOff + r.fileSize)) := by
+  induction rs generalizing lo with
+  | nil => rfl
+  | cons r rs ih => simp [tiles, ih]
+
+/-- **C06 `inplace_covers_all`.** In the layout model of C04 (`layoutParts` = `layout_section_parts`), for every
+input: walking the part records in layout order, the padding range in front of each part followed by the part's
+own file range tile `[0, fileSize)` without gap or overlap, where `fileSize` is what `compute_total_file_size`
+passes to `set_size` (the output is truncated / extended to exactly that length). Hence every byte of the output
+file lies either in the file range of exactly one run of parts or in a padding range, nothing lies outside, and
+the ranges are pairwise disjoint.
+
+Writer-side assumption (not modelled here, explored by the `--update-in-place` runs of `vlib/props/c06.py`):
+(1) the writer of every part stores all `fileSize` bytes of the buffer it is handed; (2) padding is zero-filled:
+`split_output_into_sections` zero-fills the bytes between consecutive section ranges (`padding.fill(0)`) and
+`fill_padding` zero-fills whatever remains of a section's buffer after `split_buffers_by_alignment` has handed
+out `fileSize` bytes per part (the parts' buffers are carved consecutively, so the left-over has the total
+length of the padding ranges inside the section). Under (1) and (2) every byte of `[0, fileSize)` is stored by
+the link, so the previous contents of an output file reused by `--update-in-place` cannot show through. -/
+theorem inplace_covers_all (cfg : Config) (il : Nat → Bool) (secs : Nat → Sec) (evs : List Event) :
+    let recs := allRecs (layoutParts cfg il secs evs)
+    let ts := tiles 0 recs
+    let size := totalFileSize recs
+    Chain 0 size ts ∧
+    (∀ b, b < size ↔ ∃ t ∈ ts, t.start ≤ b ∧ b < t.stop) ∧
+    ts.Pairwise (fun a b => a.stop ≤ b.start) ∧
+    (∀ t ∈ ts, t.start ≤ t.stop ∧ t.stop ≤ size) ∧
+    (ts.filter (fun t => !t.pad)).map (fun t => (t.start, t.stop)) =
+      recs.map (fun r => (r.fileOff, r.fileOff + r.fileSize)) := by
+  intro recs ts size
+  have hs := layoutWalk_file cfg il (segmentAlignments il secs cfg.page evs) secs
+      { file := 0, mem := cfg.base, pending := none } evs
+  have hp : recs.Pairwise (fun a b => a.fileOff + a.fileSize ≤ b.fileOff) := hs.2.2
+  have hlo : ∀ r ∈ recs, 0 ≤ r.fileOff := fun r _ => Nat.zero_le _
+  have hc : Chain 0 size ts := by
+    have h1 := tiles_chain 0 recs hlo hp
+    have h2 := foldl_max_eq_fileEnd 0 recs hlo hp
+    show Chain 0 (totalFileSize recs) (tiles 0 recs)
+    unfold totalFileSize
+    rw [h2]; exact h1
+  refine ⟨hc, ?_, hc.pairwise, ?_, tiles_parts 0 recs⟩
+  · intro b
+    have := hc.cover b
+    constructor
+    · intro h; exact this.1 ⟨Nat.zero_le _, h⟩
+    · intro h; exact (this.2 h).2
+  · intro t ht
+    have := hc.bounds t ht
+    exact ⟨this.2.1, this.2.2⟩
+
+/-- Non-vacuity: a 0x30-byte part, 0x10 bytes of alignment padding, a 0x100-byte part aligned to 64. -/
+example :
+    let secs : Nat → Sec := fun sid =>
+      if sid = 0 then { (default : Sec) with alloc := true, hasData := true, parts := [⟨4, 0x30⟩] }
+      else { (default : Sec) with alloc := true, hasData := true, parts := [⟨6, 0x100⟩] }
+    let recs := allRecs (layoutParts ⟨false, 0x400000, 12, 0, 99⟩ (fun _ => true) secs
+      [.segStart 0, .section 0, .section 1, .segEnd 0])
+    tiles 0 recs = [⟨0, 0, true⟩, ⟨0, 0x30, false⟩, ⟨0x30, 0x40, true⟩, ⟨0x40, 0x140, false⟩] ∧
+    totalFileSize recs = 0x140 := by
+  decide
+
+end Wild.InPlace
